@@ -24,8 +24,7 @@ deriving DecidableEq, Inhabited
 
 /-- `NewEdgeCrosser(a, b)`; `c` and `acb` keep their Go zero values -/
 def init (a b : V3) : St :=
-  let norm := pointCross a b
-  { a := a, b := b, aXb := a.cross b, aTangent := a.cross norm, bTangent := norm.cross b,
+  { a := a, b := b, aXb := a.cross b, aTangent := (tangents a b).1, bTangent := (tangents a b).2,
     c := zero3, acb := 0 }
 
 /-- one public method call -/
